@@ -354,8 +354,30 @@ pub fn profile() -> Profile {
     p
 }
 
+/// command names other than `cmd`: everything the scripts derive from the name (function names, the
+/// registration) must still belong to the grammar's command
+const COMMAND_NAMES: [&str; 8] = ["python3.11", "g++", "mkfs.ext4", "a-b_c", "x:y", "7z", "_under", "a@b"];
+
 fn case(bytes: &[u8], with_bin: bool) -> Outcome {
     let cc = clean_case(bytes, &profile(), false);
+    let pick = bytes.get(1).copied().unwrap_or(0) as usize;
+    if pick % 5 == 0 {
+        let name = COMMAND_NAMES[(pick / 5) % COMMAND_NAMES.len()];
+        let mut g = cc.g.clone();
+        for st in g.stmts.iter_mut() {
+            if let Stmt::Call { name: n, .. } = st {
+                *n = name.to_string();
+            }
+        }
+        let text = print_minimal(&g);
+        return match judge(&g, &text, with_bin, bytes.first().copied().unwrap_or(0)) {
+            Outcome::Pass(mut c) => {
+                c.class("command_name_not_cmd");
+                Outcome::Pass(c)
+            }
+            o => o,
+        };
+    }
     judge(&cc.g, &cc.text, with_bin, bytes.first().copied().unwrap_or(0))
 }
 
@@ -386,7 +408,7 @@ pub fn run(tier: Tier, seed: u64) -> i32 {
         tier,
         seed,
         "translation_validation",
-        "per (grammar, shell): the emitted script is read back with an independent reader for that shell (string constants lexed with the shell's own quoting rules, table statements of the emitter's layout, index base 0 for bash/pwsh and 1 for fish/zsh) into: literal list, description per literal, (state, literal/command/compadd/within-word/any-word) -> state tables, per-state-per-level candidate lists, start state, command function bodies, registration. The labelled transition set reconstructed from the tables (label = text + description from the literal list, level from the completion table that lists the item; a matched item offered at no level or an offered item without transition is an error) must equal the transition set of the library's minimised automaton, state numbers included, for the main automaton and for every within-word table set (matched to the automaton's within-word automata through the main transitions, shared shape functions resolved), start states equal, literal lists equal, command functions = the automaton's commands, registered for the grammar's command. Grammars: exhaustive small trees + random clean grammars rich in same-shaped / differently shaped / level-resplit within-word expressions. Part 'binary': the binary's stdout equals the library's script (signature line aside), bash passes `bash -n`. Non-trivial: >=1 within-word table set and a description or level > 0; shared table sets are counted.",
+        "per (grammar, shell): the emitted script is read back with an independent reader for that shell (string constants lexed with the shell's own quoting rules, table statements of the emitter's layout, index base 0 for bash/pwsh and 1 for fish/zsh) into: literal list, description per literal, (state, literal/command/compadd/within-word/any-word) -> state tables, per-state-per-level candidate lists, start state, command function bodies, registration. The labelled transition set reconstructed from the tables (label = text + description from the literal list, level from the completion table that lists the item; a matched item offered at no level or an offered item without transition is an error) must equal the transition set of the library's minimised automaton, state numbers included, for the main automaton and for every within-word table set (matched to the automaton's within-word automata through the main transitions, shared shape functions resolved), start states equal, literal lists equal, command functions = the automaton's commands, registered for the grammar's command. Grammars: exhaustive small trees + random clean grammars (1 in 5 with a command name other than `cmd`: dots, plus signs, colons, leading underscore or digit) rich in same-shaped / differently shaped / level-resplit within-word expressions. Part 'binary': the binary's stdout equals the library's script (signature line aside), bash passes `bash -n`. Non-trivial: >=1 within-word table set and a description or level > 0; shared table sets are counted.",
     );
     run.assumptions.push("accepting states are not embedded in any script, so they cannot be compared; fish/zsh/pwsh scripts are read, not executed".into());
     run.enumerate("regress", load_regress("C04"), false, case_regress);
